@@ -50,6 +50,12 @@ def C01(tier):
     jobs += [hj("h_suspend", 16 * min(m, 2), first=0, mode="pbar")]
     # the thread-bound main queue drained the CoreFoundation way: nothing but the eventfd wake-up makes the main thread drain
     jobs += [mqcf(2 * m, 600), mqcf(2 * m, 700, extra=["--sigstorm=2000"])]
+    # an item that a running item of another queue depends on must start: every push onto a root queue ends in a thread request
+    # (short stuck rule: a stall that the idle-worker time-out repairs after 5 s is a stranded item)
+    jobs += [hj("h_relay", 10 * m, first=0), hj("h_relay", 8 * m, first=100, ncpu=4), hj("h_relay", 6 * m, first=200, ncpu=2),
+             hj("h_relay", 6 * m, first=300, extra=["--sigstorm=2000"])]
+    # stray futex wake-ups: a woken waiter that does not re-check its condition returns early
+    jobs += [hq("mixed", 6 * m, first=3300, extra=["--futexstorm=3000"]), hq("hier", 6 * m, first=3400, extra=["--futexstorm=3000"])]
     jobs += [hq("mixed", 6 * m, first=3000, extra=["--sigstorm=2000"]), hq("pingpong", 6 * m, first=3100, extra=["--sigstorm=2000"]), hq("hier", 6 * m, first=3200, extra=["--sigstorm=2000"])]
     if tier == "thorough":
         jobs += [hq("default", 10 * m, first=2000, flavor="dbg", scale=60, timeout=900)]
@@ -68,12 +74,14 @@ def C01(tier):
         "retargets_while_in_use": 8000,
         "mainq_cf_items": 10000,
         "mainq_cf_wakeups": 200,
+        "relay_pairs": 100000,
+        "stray_futex_wakes": 1000,
     }
     rule = ("one case = one trial: a drawn queue graph (serial/concurrent/global/workloop queues, target chains to depth 4), "
             "workload shape (pingpong/flood/mixed/chain/gate/starve), 2-12 foreign client threads, a perturbation profile at the "
             "library's atomics and a CPU-affinity mask (pool size); non-trivial = consecutive items of one domain ran on different "
             "threads (cross-thread hand-off observed); distinct = distinct (graph, shape, profile kind, set of library atomic "
-            "sites reached, bucketed overlap/hand-off counts) signatures; additional job classes: legacy queues whose target queue is changed (custom, global, default, ephemeral, workloop targets), suspended and resumed by other threads while clients use them; directed failpoint schedules (redirected waiter: h_waiter; pending barrier + suspend: h_suspend pbar); trials under a signal storm (EINTR in every blocking call); the thread-bound main queue drained only by eventfd wake-ups + _dispatch_main_queue_callback_4CF (h_mainq --mode=cf); ASan with stack-use-after-return detection")
+            "sites reached, bucketed overlap/hand-off counts) signatures; additional job classes: legacy queues whose target queue is changed (custom, global, default, ephemeral, workloop targets), suspended and resumed by other threads while clients use them; directed failpoint schedules (redirected waiter: h_waiter; pending barrier + suspend: h_suspend pbar); trials under a signal storm (EINTR in every blocking call); the thread-bound main queue drained only by eventfd wake-ups + _dispatch_main_queue_callback_4CF (h_mainq --mode=cf); pairs of items on two queues of which the first blocks until the second, submitted microseconds later, has run (h_relay, stuck rule shortened to 2 s); trials under stray FUTEX_WAKE calls on the words the library's wait loops read; ASan with stack-use-after-return detection")
     return jobs, floors, rule
 
 
@@ -90,6 +98,8 @@ def C02(tier):
     # serial queues inside target-queue hierarchies (sync / async_and_wait recursing through levels)
     jobs += spread(hq, "hier", 16 * m, 2)
     jobs += [Job("hooks", "h_mainq", ["--trials=%d" % (2 * m)], timeout=300, tag="h_mainq")]
+    jobs += [hq("serial", 8 * m, first=3300, extra=["--futexstorm=3000"]), hq("pingpong", 6 * m, first=3400, extra=["--futexstorm=3000"]),
+             hq("hier", 6 * m, first=3500, extra=["--futexstorm=3000"])]
     jobs += [mqcf(2 * m, 200), mqcf(2 * m, 300, extra=["--sigstorm=2000"]), mqcf(m, 400, flavor="asan", timeout=600),
              mqcf(m, 500, flavor="tsan", extra=["--scale=25", "--perturb=uniform"], timeout=900)]
     jobs += [hq("serial", 6 * m, first=900, flavor="tsan", scale=25, timeout=900, perturb="uniform"),
@@ -110,6 +120,7 @@ def C02(tier):
         "mainq_items": 10000,
         "mainq_cf_items": 10000,
         "mainq_cf_wakeups": 200,
+        "stray_futex_wakes": 1000,
         "window3_schedule_reached": 16,
     }
     rule = ("one case = one trial of N client threads using every submission API (async/sync/barrier_*/async_and_wait, block and "
@@ -203,6 +214,9 @@ def C05(tier):
     jobs += [hw(32 * min(m, 2)), hw(32 * min(m, 2), flavor="asan")]
     jobs += [hq("retarget", 8 * m, first=500), hq("retarget", 4 * m, first=550, flavor="tsan", scale=25, timeout=900, perturb="uniform")]
     jobs += [Job("hooks", "h_handoff", ["--trials=%d" % (10 * m), "--first=600", "--sigstorm=2000"], timeout=600, tag="h_handoff:hooks:sigstorm"), hq("pingpong", 6 * m, first=3100, extra=["--sigstorm=2000"])]
+    # stray futex wake-ups on the words sync waiters, group waiters and once waiters sleep on
+    jobs += [Job("hooks", "h_handoff", ["--trials=%d" % (10 * m), "--first=700", "--futexstorm=3000"], timeout=600, tag="h_handoff:hooks:futexstorm"), hq("pingpong", 6 * m, first=3600, extra=["--futexstorm=3000"]),
+             hq("hier", 6 * m, first=3700, extra=["--futexstorm=3000"])]
     if tier == "thorough":
         for t in jobs:
             t.timeout = 1800
@@ -238,6 +252,7 @@ def C07(tier):
              hj("h_group", 8 * m, first=2200, ncpu=4, mode="tokens")]
     jobs += [hj("h_group", 4 * m, first=3000, flavor="asan", scale=40, timeout=600)]
     jobs += [hj("h_group", 8 * m, first=5000, mode="tokens", extra=["--sigstorm=2000"]), hj("h_group", 8 * m, first=5100, mode="mixed", extra=["--sigstorm=2000"])]
+    jobs += [hj("h_group", 8 * m, first=5200, mode="tokens", extra=["--futexstorm=3000"]), hj("h_group", 8 * m, first=5300, mode="mixed", extra=["--futexstorm=3000"])]
     # quiescent rounds: a wake-up lost at a zero transition leaves every thread asleep (stuck witness)
     jobs += [hj("h_group", 3 * m, first=4000, mode="rounds"), hj("h_group", 3 * m, first=4100, mode="rounds"),
              hj("h_group", 2 * m, first=4200, mode="rounds", ncpu=3, scale=50), hj("h_group", 2 * m, first=4300, mode="rounds", ncpu=2, scale=30)]
@@ -300,7 +315,7 @@ def C09(tier):
         jobs.append(hj("h_once", 10 * m, first=i * 10 * m))
     jobs += [hj("h_once", 6 * m, first=2000, ncpu=1, scale=30), hj("h_once", 8 * m, first=2100, ncpu=2, scale=60), hj("h_once", 8 * m, first=2200, ncpu=4)]
     jobs += [hj("h_once", 6 * m, first=3000, flavor="tsan", scale=40, timeout=900)]
-    jobs += [hj("h_once", 8 * m, first=5000, extra=["--sigstorm=2000"])]
+    jobs += [hj("h_once", 8 * m, first=5000, extra=["--sigstorm=2000"]), hj("h_once", 8 * m, first=5100, extra=["--futexstorm=3000"])]
     if tier == "thorough":
         for t in jobs:
             t.timeout = 1800
